@@ -267,6 +267,8 @@ SHAPES = {
     "undefined-before-definition": "try { print(later); } catch e { print(e.message); }\nlet later = 1;\nprint(later);",
     "native-fails-under-native-that-succeeds": "fn lv2() {}\nfn lv3(x) { try { [1].iter().each(lv2); } catch e {} return true; }\nprint([1].iter().all(lv3));\nprint([1, 2].iter().map(lv3).list());\nprint(\"end\");",
     "launch-method-using-self": "class Foo { init() { self.v = 7; } bar(c) { c <- self.v; } }\nlet ch = chan(1);\nlet foo = Foo();\nlaunch foo.bar(ch);\nprint(<- ch);\nlet b = foo.bar;\nlaunch b(ch);\nprint(<- ch);",
+    "class-with-300-fields": "class K { init() { " + " ".join("self.f%d = %d;" % (i, i) for i in range(300)) + " } get() { return self.f299 + @f0; } }\ntry { let k = K(); print(k.f299); print(k.get()); k.f150 = 7; print(k.f150); } catch e { print(e.message); }\nprint(\"end\");",
+    "class-with-257-fields-subclass": "class K { init() { " + " ".join("self.f%d = %d;" % (i, i) for i in range(200)) + " } }\nclass L : K { init() { super.init(); " + " ".join("self.g%d = %d;" % (i, i) for i in range(57)) + " } }\ntry { let l = L(); print(l.g56); print(l.f199); } catch e { print(e.message); }\nprint(\"end\");",
     "print-no-args": "try { print(); } catch e { print(e.message); }\nprint(\"end\");",
 }
 
